@@ -24,6 +24,7 @@ RULE = ("histories over (pairing of node kinds, generated layout as in C05, cons
         "requests; reception inline and from a dispatcher thread while another thread waits in wait_for_reception. "
         "Signature = (pairing, operation, layout class, collision class); non-trivial = layout has an unaligned or sub-byte "
         "field or more than one consumer map listens to the COB-ID.")
+RULE += (" " + "Widened later: answer on the same COB-ID by a map that has received, configuration flags learnt via read(), node-level lookups after re-mapping, frames with equal / zero time stamps through the listener, arrival race under schedule control (receiver held at the map's lock).")
 ASSUMPTIONS = ["a map with a running periodic task ignores reception (by design); the consumer never starts one",
                "the consumer does not write into received maps (maps sharing a COB-ID share the received buffer)",
                "without a frame wait_for_reception returns None after its (20 ms) time-out"]
